@@ -551,6 +551,12 @@ func c12EvalStep(dir string, ctx *c12Context) *job.Step {
 		}
 		st.Queries = append(st.Queries, [4]string{"10.1.2.3", a, "TCP", "80"}, [4]string{a, "10.1.2.3", "UDP", "53"}, [4]string{a, "192.168.49.2", "TCP", "443"})
 	}
+	// what the command's flags accept besides the usual: addresses of the other family, a block, a port by name
+	// or out of range. The answer may be an error; it is never a crash.
+	a := pods[0]
+	st.Queries = append(st.Queries, [4]string{a, "::1", "TCP", "80"}, [4]string{"2001:db8::1", a, "TCP", "80"}, [4]string{a, "::ffff:10.0.0.1", "UDP", "53"},
+		[4]string{a, "fe80::/10", "TCP", "80"}, [4]string{"10.0.0.0/8", a, "SCTP", "80"}, [4]string{a, pods[1], "TCP", "http"}, [4]string{a, pods[1], "TCP", "99999"},
+		[4]string{a, pods[1], "", ""}, [4]string{a, pods[1], "tcp", "-1"})
 	return st
 }
 
